@@ -118,13 +118,13 @@ def check(tier, seed, V):
                       "random histories keep positions below length+60 so that neither cursor allocates gigabytes"]
 
 
-def split_runs(path):
+def split_runs(path, first="init"):
     """The trace file as a list of runs (each starts with an init event)."""
     runs, cur = [], []
     for line in open(path):
         if not line.strip():
             continue
-        if re.search(r'"ev":\s*"init"', line) and cur:
+        if re.search(r'"ev":\s*"%s"' % first, line) and cur:
             runs.append(cur)
             cur = []
         cur.append(line)
